@@ -16,6 +16,15 @@ pub assume_specification [u64::div_ceil] (a: u64, b: u64) -> (r: u64)
 pub assume_specification<Idx: Clone> [<Range<Idx> as Clone>::clone] (x: &Range<Idx>) -> (r: Range<Idx>)
     ensures call_ensures(Idx::clone, (&x.start,), r.start), call_ensures(Idx::clone, (&x.end,), r.end);
 
+// u64 helpers the splitting arithmetic may plausibly start to use (not used on the pinned tree); specified so that such
+// a change is DECIDED instead of ending as "unsupported" (exit 2)
+pub assume_specification [u64::next_multiple_of] (a: u64, b: u64) -> (r: u64)
+    requires b > 0, a + b <= u64::MAX,
+    ensures r >= a, r < a + b, r as int % b as int == 0;
+
+// every file-level constant of io.rs (none on the pinned tree), so that code that starts to use one still assembles
+//@consts rust/lance-file/src/io.rs :: [A-Z][A-Z0-9_]* :: optional
+
 /// `s` is a gap-free, overlap-free, in-order cover of the byte range lo..hi: reading the pieces and concatenating them
 /// in order yields exactly the bytes lo..hi
 pub open spec fn tiles(s: Seq<Range<u64>>, lo: u64, hi: u64) -> bool {
